@@ -628,7 +628,14 @@ impl Check for C20 {
             }
             Unit::Calls { inner, outer } => {
                 let ops = [B::Min, B::Max, B::And, B::Or];
-                for (h, g) in [(U::Sin, U::Exp), (U::Exp, U::Cos), (U::Atan, U::Sin)] {
+                for (h, g) in [
+                    (prog::CallOp::Un(U::Sin), prog::CallOp::Un(U::Exp)),
+                    (prog::CallOp::Un(U::Exp), prog::CallOp::Un(U::Cos)),
+                    (prog::CallOp::Un(U::Atan), prog::CallOp::Un(U::Sin)),
+                    (prog::CallOp::Bin(B::Atan), prog::CallOp::Un(U::Sin)),
+                    (prog::CallOp::Bin(B::Mod), prog::CallOp::Bin(B::Atan)),
+                    (prog::CallOp::Un(U::Cos), prog::CallOp::Bin(B::Mod)),
+                ] {
                     for third in [false, true] {
                         for imm in [false, true] {
                             let p = prog::calls_between_choices(ops[inner], ops[outer], h, g, third, imm);
